@@ -2,7 +2,7 @@
     function, same state, same recursion, same order of node creation.
     No proofs in this file. *)
 From Coq Require Import NArith List Bool ListSet.
-From ADF Require Import Base.Maps Spec.Spec.
+From ADF Require Import Base.Maps Spec.Spec Gen.GenFlags.
 Import ListNotations.
 Local Open Scope N_scope.
 
@@ -251,7 +251,7 @@ Fixpoint depth_fallback_f (plus : N) (fuel : nat) (st : store) (t : N) : N :=
                  (depth_fallback_f plus f st (nlo (get_node st t))) + plus
     end
   end.
-Definition DEPTH_PLUS : N := 0.   (* unchanged tree: no "+ 1" in the fallback *)
+Definition DEPTH_PLUS : N := g_depth_plus.   (* regenerated from the source: 1 iff the fallback adds one per level *)
 Definition max_depth (c : cfg) (st : store) (t : N) : N :=
   if 1 <=? adhoc c then c_dp (get_cnt st t)
   else depth_fallback_f DEPTH_PLUS (S (N.to_nat t)) st t.
